@@ -89,102 +89,124 @@ def dispatch (e : End) (flows : List Flow) (fr : Frame) : List Flow × Bool :=
       else ((f :: (dispatch e rest fr).1), (dispatch e rest fr).2)
     | none => ((f :: (dispatch e rest fr).1), (dispatch e rest fr).2)
 
-def World.step (w : World) (st : Step) : World :=
-  if w.died.isSome then w else
+/-- `client.onaccept_tcp`: allocate an id, queue CONNECT, create the handler. -/
+def World.accept (w : World) : World :=
+  match Alloc.nextChannel w.maxChan w.cOcc Generated.ALLOC_PROBES w.chani with
+  | (none, ch) => { w with chani := ch }                    -- 'too many open channels': socket closed
+  | (some c, ch) =>
+    { w with chani := ch, cm := w.cm.send c Generated.CMD_TCP_CONNECT [],   -- payload is C05's business
+             flows := w.flows ++ [{ chan := c, c := some { sw := {}, mw := { chan := c }, sockFirst := true } }] }
+
+def World.cbC (w : World) (i : Nat) (io : CbIo) : World :=
+  match w.flows[i]? with
+  | some f =>
+    match f.c with
+    | some p =>
+      match p.callback w.cm f.app io with
+      | .ok p' m' e' => { w with cm := m', flows := modifyAt w.flows i fun f => { f with c := some p', app := e' } }
+      | .died => { w with died := some "client: try_connect raised" }
+    | none => w
+  | none => w
+
+def World.cbS (w : World) (i : Nat) (io : CbIo) : World :=
+  match w.flows[i]? with
+  | some f =>
+    match f.s with
+    | some p =>
+      match p.callback w.sm f.dst io with
+      | .ok p' m' e' => { w with sm := m', flows := modifyAt w.flows i fun f => { f with s := some p', dst := e' } }
+      | .died => { w with died := some "server: try_connect raised" }
+    | none => w
+  | none => w
+
+def World.preC (w : World) (i : Nat) : World :=
+  match w.flows[i]? with
+  | some f =>
+    match f.c with
+    | some p =>
+      { w with cm := (p.preSelectFlags w.cm).2,
+               flows := modifyAt w.flows i fun f => { f with c := some (p.preSelectFlags w.cm).1 } }
+    | none => w
+  | none => w
+
+def World.preS (w : World) (i : Nat) : World :=
+  match w.flows[i]? with
+  | some f =>
+    match f.s with
+    | some p =>
+      { w with sm := (p.preSelectFlags w.sm).2,
+               flows := modifyAt w.flows i fun f => { f with s := some (p.preSelectFlags w.sm).1 } }
+    | none => w
+  | none => w
+
+/-- Server `new_channel` for a CONNECT frame (the frame is already off the queue). -/
+def World.connectS (w : World) (fr : Frame) (conn : ConnRes) : World :=
+  if w.sOcc fr.chan then { w with died := some "server: assert not channels.get(channel)" } else
+  -- connect_dst → SockWrapper.__init__ → try_connect
+  match w.flows.findIdx? (fun f => f.chan == fr.chan && !f.sEver) with
+  | none => w       -- a CONNECT of a flow this model does not track
+  | some i =>
+    match w.flows[i]? with
+    | none => w
+    | some f =>
+      match SockW.tryConnect { connecting := true } f.dst conn false with
+      | .died => { w with died := some "server: try_connect raised in new_channel" }
+      | .ok s e =>
+        { w with flows := modifyAt w.flows i fun f =>
+            { f with s := some { sw := s, mw := { chan := fr.chan }, sockFirst := false }, sEver := true, dst := e } }
+
+def World.dispatchAt (w : World) (e : End) (fr : Frame) : World :=
+  if (dispatch e w.flows fr).2 then { w with died := some "unknown command on channel" }
+  else { w with flows := (dispatch e w.flows fr).1 }
+
+/-- The next frame of the client → server queue is handled by the server's `Mux.got_packet`. -/
+def World.deliverS (w : World) (conn : ConnRes) : World :=
+  match w.cm.out with
+  | [] => w
+  | fr :: rest =>
+    let w := { w with cm := { w.cm with out := rest } }
+    if fr.cmd == Generated.CMD_PING then { w with sm := w.sm.send 0 Generated.CMD_PONG fr.data }
+    else if fr.cmd == Generated.CMD_PONG then { w with sm := { w.sm with tooFull := false, fullness := 0 } }
+    else if fr.cmd == Generated.CMD_TCP_CONNECT then w.connectS fr conn
+    else if isControl fr.cmd then w
+    else w.dispatchAt .server fr
+
+def World.deliverC (w : World) : World :=
+  match w.sm.out with
+  | [] => w
+  | fr :: rest =>
+    let w := { w with sm := { w.sm with out := rest } }
+    if fr.cmd == Generated.CMD_PING then { w with cm := w.cm.send 0 Generated.CMD_PONG fr.data }
+    else if fr.cmd == Generated.CMD_PONG then { w with cm := { w.cm with tooFull := false, fullness := 0 } }
+    else if fr.cmd == Generated.CMD_TCP_CONNECT then
+      if w.cOcc fr.chan then { w with died := some "client: assert not channels.get(channel)" } else w
+    else if isControl fr.cmd then w
+    else w.dispatchAt .client fr
+
+def World.rmC (w : World) : World :=
+  { w with flows := w.flows.map fun f =>
+      match f.c with
+      | some p => if p.ok then f else { f with c := none }
+      | none => f }
+
+def World.rmS (w : World) : World :=
+  { w with flows := w.flows.map fun f =>
+      match f.s with
+      | some p => if p.ok then f else { f with s := none }
+      | none => f }
+
+/-- One step, for a world in which every process is alive. -/
+def World.stepRaw (w : World) (st : Step) : World :=
   match st with
-  | .accept =>
-    match Alloc.nextChannel w.maxChan w.cOcc Generated.ALLOC_PROBES w.chani with
-    | (none, ch) => { w with chani := ch }                    -- 'too many open channels': socket closed
-    | (some c, ch) =>
-      let cm := w.cm.send c Generated.CMD_TCP_CONNECT []       -- payload is C05's business
-      let p : ProxyS := { sw := {}, mw := { chan := c }, sockFirst := true }
-      { w with chani := ch, cm := cm, flows := w.flows ++ [{ chan := c, c := some p }] }
-  | .cb .client i io =>
-    match w.flows[i]? with
-    | some f =>
-      match f.c with
-      | some p =>
-        match p.callback w.cm f.app io with
-        | .ok p' m' e' => { w with cm := m', flows := modifyAt w.flows i fun f => { f with c := some p', app := e' } }
-        | .died => { w with died := some "client: try_connect raised" }
-      | none => w
-    | none => w
-  | .cb .server i io =>
-    match w.flows[i]? with
-    | some f =>
-      match f.s with
-      | some p =>
-        match p.callback w.sm f.dst io with
-        | .ok p' m' e' => { w with sm := m', flows := modifyAt w.flows i fun f => { f with s := some p', dst := e' } }
-        | .died => { w with died := some "server: try_connect raised" }
-      | none => w
-    | none => w
-  | .pre .client i =>
-    match w.flows[i]? with
-    | some f =>
-      match f.c with
-      | some p =>
-        let (p', m') := p.preSelectFlags w.cm
-        { w with cm := m', flows := modifyAt w.flows i fun f => { f with c := some p' } }
-      | none => w
-    | none => w
-  | .pre .server i =>
-    match w.flows[i]? with
-    | some f =>
-      match f.s with
-      | some p =>
-        let (p', m') := p.preSelectFlags w.sm
-        { w with sm := m', flows := modifyAt w.flows i fun f => { f with s := some p' } }
-      | none => w
-    | none => w
-  | .deliver .server conn =>
-    match w.cm.out with
-    | [] => w
-    | fr :: rest =>
-      let w := { w with cm := { w.cm with out := rest } }
-      if fr.cmd == Generated.CMD_PING then { w with sm := w.sm.send 0 Generated.CMD_PONG fr.data }
-      else if fr.cmd == Generated.CMD_PONG then { w with sm := { w.sm with tooFull := false, fullness := 0 } }
-      else if fr.cmd == Generated.CMD_TCP_CONNECT then
-        if w.sOcc fr.chan then { w with died := some "server: assert not channels.get(channel)" } else
-        -- new_channel: connect_dst → SockWrapper.__init__ → try_connect
-        match w.flows.findIdx? (fun f => f.chan == fr.chan && !f.sEver) with
-        | none => w       -- a CONNECT of a flow this model does not track
-        | some i =>
-          match w.flows[i]? with
-          | none => w
-          | some f =>
-            match SockW.tryConnect { connecting := true } f.dst conn false with
-            | .died => { w with died := some "server: try_connect raised in new_channel" }
-            | .ok s e =>
-              let p : ProxyS := { sw := s, mw := { chan := fr.chan }, sockFirst := false }
-              { w with flows := modifyAt w.flows i fun f => { f with s := some p, sEver := true, dst := e } }
-      else if isControl fr.cmd then w
-      else
-        let r := dispatch .server w.flows fr
-        if r.2 then { w with died := some "server: unknown command on channel" } else { w with flows := r.1 }
-  | .deliver .client _ =>
-    match w.sm.out with
-    | [] => w
-    | fr :: rest =>
-      let w := { w with sm := { w.sm with out := rest } }
-      if fr.cmd == Generated.CMD_PING then { w with cm := w.cm.send 0 Generated.CMD_PONG fr.data }
-      else if fr.cmd == Generated.CMD_PONG then { w with cm := { w.cm with tooFull := false, fullness := 0 } }
-      else if fr.cmd == Generated.CMD_TCP_CONNECT then
-        if w.cOcc fr.chan then { w with died := some "client: assert not channels.get(channel)" } else w
-      else if isControl fr.cmd then w
-      else
-        let r := dispatch .client w.flows fr
-        if r.2 then { w with died := some "client: unknown command on channel" } else { w with flows := r.1 }
-  | .removeDead .client =>
-    { w with flows := w.flows.map fun f =>
-        match f.c with
-        | some p => if p.ok then f else { f with c := none }
-        | none => f }
-  | .removeDead .server =>
-    { w with flows := w.flows.map fun f =>
-        match f.s with
-        | some p => if p.ok then f else { f with s := none }
-        | none => f }
+  | .accept => w.accept
+  | .cb .client i io => w.cbC i io
+  | .cb .server i io => w.cbS i io
+  | .pre .client i => w.preC i
+  | .pre .server i => w.preS i
+  | .deliver .server conn => w.deliverS conn
+  | .deliver .client _ => w.deliverC
+  | .removeDead .client => w.rmC
+  | .removeDead .server => w.rmS
   | .checkFull .client => { w with cm := w.cm.checkFullness w.bufsize }
   | .checkFull .server => { w with sm := w.sm.checkFullness w.bufsize }
   | .foreign .client fr => { w with cm := w.cm.send fr.chan fr.cmd fr.data }
@@ -195,6 +217,12 @@ def World.step (w : World) (st : Step) : World :=
   | .dstWrite i b => { w with flows := modifyAt w.flows i fun f =>
       if f.dst.eofIn then f else { f with dst := { f.dst with pending := f.dst.pending ++ b } } }
   | .dstEof i => { w with flows := modifyAt w.flows i fun f => { f with dst := { f.dst with eofIn := true } } }
+
+/-- One step.  Once a process has died with an unplanned exception nothing moves any more; the
+step in which it dies changes nothing but the `died` marker. -/
+def World.step (w : World) (st : Step) : World :=
+  if w.died.isSome then w else
+  if (w.stepRaw st).died.isSome then { w with died := (w.stepRaw st).died } else w.stepRaw st
 
 def World.run (w : World) (steps : List Step) : World := steps.foldl World.step w
 
